@@ -49,6 +49,13 @@ Theorem C04_node_request_grows_only_when_empty : forall s try_ ns bytes evs r s'
 Proof. exact node_request_grows_only_when_empty. Qed.
 Print Assumptions C04_node_request_grows_only_when_empty.
 
+(* a node that was released can be had again: a composable single-node request is refused only when the list is empty *)
+Theorem C04_single_node_refusal_means_empty : forall s ns bytes evs s',
+  acc_op s (OAlloc true false ns bytes) evs ObsNull = Some s' ->
+  exists l0, find_list ns (a_lists s) = Some l0 /\ l_nfree l0 <= 0.
+Proof. exact single_node_refusal_means_empty. Qed.
+Print Assumptions C04_single_node_refusal_means_empty.
+
 (* non-vacuity: an accepted history on a 16-byte list: insert 10 nodes, take a 3x8-byte array (2 nodes) and a node, give both back *)
 Example C04_nonvacuous :
   let s0 := mk_ast [mk_list LIntrusive 16] in
